@@ -1,0 +1,327 @@
+//go:build verif
+// +build verif
+
+// Scripted driver for the verification harness (/verif). Compiled only with -tags verif.
+// When VERIF_DRIVER is set, init() runs one of the drivers below instead of main(): the real
+// main needs a D-Bus system bus and Raspberry Pi hardware. The drivers call the unmodified
+// functions of this package (ParseConfig, deleteTempFiles, handleConn, NewCPTVFileRecorder,
+// convertRawBosonFrame, newSnapshot, newSnapshotRecording, the service methods).
+
+package main
+
+import (
+	"bufio"
+	"encoding/base64"
+	"encoding/json"
+	"fmt"
+	"io/ioutil"
+	"log"
+	"net"
+	"os"
+	"strconv"
+	"strings"
+	"sync"
+	"sync/atomic"
+	"time"
+
+	"github.com/TheCacophonyProject/go-cptv/cptvframe"
+	"github.com/TheCacophonyProject/lepton3"
+)
+
+func init() {
+	mode := os.Getenv("VERIF_DRIVER")
+	if mode == "" {
+		return
+	}
+	if os.Getenv("VERIF_LOG") == "" {
+		log.SetOutput(ioutil.Discard)
+	}
+	var code int
+	switch mode {
+	case "serve":
+		code = verifServe()
+	case "filerec":
+		code = verifFileRec()
+	case "parse":
+		code = verifParse()
+	case "race":
+		code = verifRace()
+	default:
+		fmt.Fprintln(os.Stderr, "unknown VERIF_DRIVER mode", mode)
+		code = 2
+	}
+	os.Exit(code)
+}
+
+func verifOut(v interface{}) {
+	b, _ := json.Marshal(v)
+	os.Stdout.Write(append(b, '\n'))
+}
+
+// serve: what runMain does after argument parsing, minus D-Bus service registration,
+// periph host.Init and the snapshot trigger goroutine:
+// ParseConfig, deleteTempFiles, then listen/accept/handleConn in a loop.
+// argv: <config dir> <number of connections> <clean: 0|1>
+func verifServe() int {
+	args := strings.Fields(os.Getenv("VERIF_ARGS"))
+	if len(args) < 3 {
+		return 2
+	}
+	conns, _ := strconv.Atoi(args[1])
+	conf, err := ParseConfig(args[0])
+	if err != nil {
+		verifOut(map[string]interface{}{"ev": "config-error", "err": err.Error()})
+		return 1
+	}
+	if args[2] == "1" {
+		if err := deleteTempFiles(conf.OutputDir); err != nil {
+			verifOut(map[string]interface{}{"ev": "clean-error", "err": err.Error()})
+			return 1
+		}
+		verifOut(map[string]interface{}{"ev": "cleaned"})
+	}
+	for i := 0; i < conns; i++ {
+		os.Remove(conf.FrameInput)
+		listener, err := net.Listen("unix", conf.FrameInput)
+		if err != nil {
+			verifOut(map[string]interface{}{"ev": "listen-error", "err": err.Error()})
+			return 1
+		}
+		verifOut(map[string]interface{}{"ev": "listening", "socket": conf.FrameInput})
+		conn, err := listener.Accept()
+		if err != nil {
+			continue
+		}
+		listener.Close()
+		err = handleConn(conn, conf)
+		verifOut(map[string]interface{}{"ev": "conn-end", "err": fmt.Sprint(err)})
+	}
+	return 0
+}
+
+type verifCam struct{ x, y, fps int }
+
+func (c verifCam) ResX() int { return c.x }
+func (c verifCam) ResY() int { return c.y }
+func (c verifCam) FPS() int  { return c.fps }
+
+// filerec: the real CPTVFileRecorder driven by commands on stdin, one per line, each
+// acknowledged on stdout:
+//   new <outdir> <constant 0|1> <resx> <resy>   start <thresh>   write <value>   stop   Stop
+//   deltemp <dir>   exit
+func verifFileRec() int {
+	in := bufio.NewScanner(os.Stdin)
+	var rec *CPTVFileRecorder
+	var cam verifCam
+	for in.Scan() {
+		f := strings.Fields(in.Text())
+		if len(f) == 0 {
+			continue
+		}
+		var err error
+		switch f[0] {
+		case "new":
+			x, _ := strconv.Atoi(f[3])
+			y, _ := strconv.Atoi(f[4])
+			cam = verifCam{x, y, 9}
+			conf := &Config{OutputDir: f[1], DeviceName: "verif"}
+			rec = NewCPTVFileRecorder(conf, cam, "flir", "lepton3", 1234, "1.2.3")
+			if f[2] == "1" {
+				rec.SetAsConstantRecorder()
+			}
+		case "start":
+			th, _ := strconv.Atoi(f[1])
+			bg := cptvframe.NewFrame(cam)
+			err = rec.StartRecording(bg, uint16(th))
+		case "write":
+			v, _ := strconv.Atoi(f[1])
+			fr := cptvframe.NewFrame(cam)
+			for y := range fr.Pix {
+				for x := range fr.Pix[y] {
+					fr.Pix[y][x] = uint16(v)
+				}
+			}
+			fr.Status.TimeOn = time.Duration(v) * time.Millisecond
+			err = rec.WriteFrame(fr)
+		case "stop":
+			err = rec.StopRecording()
+		case "Stop":
+			rec.Stop()
+		case "deltemp":
+			err = deleteTempFiles(f[1])
+		case "exit":
+			verifOut(map[string]interface{}{"ack": "exit"})
+			return 0
+		}
+		verifOut(map[string]interface{}{"ack": f[0], "err": fmt.Sprint(err)})
+	}
+	return 0
+}
+
+// parse: raw frames through the real parsers. stdin: JSON lines
+// {"format":"lepton"|"boson","w":..,"h":..,"edge":..,"raw":"<base64>"}
+func verifParse() int {
+	in := bufio.NewReaderSize(os.Stdin, 1<<22)
+	for {
+		line, err := in.ReadBytes('\n')
+		if len(line) > 0 {
+			var req struct {
+				Format string
+				W, H   int
+				Edge   int
+				Raw    string
+			}
+			if json.Unmarshal(line, &req) != nil {
+				return 2
+			}
+			raw, _ := base64.StdEncoding.DecodeString(req.Raw)
+			fr := cptvframe.NewFrame(verifCam{req.W, req.H, 9})
+			var perr error
+			func() {
+				defer func() {
+					if r := recover(); r != nil {
+						perr = fmt.Errorf("PANIC %v", r)
+					}
+				}()
+				if req.Format == "boson" {
+					perr = convertRawBosonFrame(raw, fr, req.Edge)
+				} else {
+					perr = lepton3.ParseRawFrame(raw, fr, req.Edge)
+				}
+			}()
+			_, bad := perr.(*lepton3.BadFrameErr)
+			res := map[string]interface{}{"bad": bad, "err": fmt.Sprint(perr), "pix": fr.Pix,
+				"timeon": int64(fr.Status.TimeOn), "lastffc": int64(fr.Status.LastFFCTime), "framecount": fr.Status.FrameCount,
+				"framemean": fr.Status.FrameMean, "tempc": fr.Status.TempC, "lastffctempc": fr.Status.LastFFCTempC, "ffcstate": fr.Status.FFCState}
+			verifOut(res)
+		}
+		if err != nil {
+			return 0
+		}
+	}
+}
+
+// race: the real handleConn fed over a unix socket while requester goroutines call the D-Bus
+// service methods (TakeSnapshot, TakeTestRecording, CameraInfo) directly, as the exported
+// service object would on D-Bus calls. Frames are uniform-valued (all pixels = sequence
+// number) so that a mixed snapshot is visible.
+// argv: <config dir> <frames per connection> <connections> <requesters> <pause between frames, us>
+func verifRace() int {
+	args := strings.Fields(os.Getenv("VERIF_ARGS"))
+	if len(args) < 5 {
+		return 2
+	}
+	nframes, _ := strconv.Atoi(args[1])
+	nconns, _ := strconv.Atoi(args[2])
+	nreq, _ := strconv.Atoi(args[3])
+	pauseUs, _ := strconv.Atoi(args[4])
+	conf, err := ParseConfig(args[0])
+	if err != nil {
+		verifOut(map[string]interface{}{"ev": "config-error", "err": err.Error()})
+		return 1
+	}
+	var sent int64 // number of frames fully written to the socket so far (this connection)
+	var done int32
+	var torn, early, snaps, nils, testreqs, infos int64
+	var firstTorn atomic.Value
+	var wg sync.WaitGroup
+	svc := &service{}
+	for r := 0; r < nreq; r++ {
+		wg.Add(1)
+		go func(r int) {
+			defer wg.Done()
+			for atomic.LoadInt32(&done) == 0 {
+				switch r % 3 {
+				case 0, 1:
+					before := atomic.LoadInt64(&sent)
+					f, derr := svc.TakeSnapshot(-1)
+					if derr != nil || f == nil {
+						atomic.AddInt64(&nils, 1)
+						time.Sleep(50 * time.Microsecond)
+						continue
+					}
+					atomic.AddInt64(&snaps, 1)
+					v := f.Pix[0][0]
+					uniform := true
+					for y := range f.Pix {
+						for x := range f.Pix[y] {
+							if f.Pix[y][x] != v {
+								uniform = false
+							}
+						}
+					}
+					if !uniform {
+						atomic.AddInt64(&torn, 1)
+						firstTorn.Store(fmt.Sprintf("frame mixes values, first pixel %d", v))
+					}
+					_ = before
+					if v == 0 {
+						atomic.AddInt64(&early, 1) // a never-written slot
+					}
+				case 2:
+					if r%2 == 0 {
+						svc.TakeTestRecording()
+						atomic.AddInt64(&testreqs, 1)
+						time.Sleep(2 * time.Millisecond)
+					} else {
+						svc.CameraInfo()
+						atomic.AddInt64(&infos, 1)
+					}
+				}
+			}
+		}(r)
+	}
+	for c := 0; c < nconns; c++ {
+		os.Remove(conf.FrameInput)
+		listener, err := net.Listen("unix", conf.FrameInput)
+		if err != nil {
+			verifOut(map[string]interface{}{"ev": "listen-error", "err": err.Error()})
+			return 1
+		}
+		feederDone := make(chan struct{})
+		go func() {
+			defer close(feederDone)
+			conn, err := net.Dial("unix", conf.FrameInput)
+			if err != nil {
+				return
+			}
+			defer conn.Close()
+			resx, resy := 160, 120
+			hdr := fmt.Sprintf("ResX: %d\nResY: %d\nFrameSize: %d\nModel: lepton3\nBrand: flir\nFPS: 9\nCameraSerial: 77\nFirmware: 1.0.0\n\n", resx, resy, lepton3.BytesPerFrame)
+			conn.Write([]byte(hdr))
+			raw := make([]byte, lepton3.BytesPerFrame)
+			atomic.StoreInt64(&sent, 0)
+			for i := 1; i <= nframes; i++ {
+				v := uint16(i%60000 + 1)
+				// telemetry: time on 60 s + i*111 ms (word order Big16), last FFC at 1 s
+				ms := uint32(60000 + i*111)
+				raw[2], raw[3], raw[4], raw[5] = byte(ms>>8), byte(ms), byte(ms>>24), byte(ms>>16)
+				raw[60], raw[61], raw[62], raw[63] = byte(1000>>8), byte(1000&0xff), 0, 0
+				for p := 640; p+1 < len(raw); p += 2 {
+					raw[p], raw[p+1] = byte(v>>8), byte(v)
+				}
+				if _, err := conn.Write(raw); err != nil {
+					return
+				}
+				atomic.AddInt64(&sent, 1)
+				if pauseUs > 0 {
+					time.Sleep(time.Duration(pauseUs) * time.Microsecond)
+				}
+			}
+		}()
+		conn, err := listener.Accept()
+		if err != nil {
+			continue
+		}
+		listener.Close()
+		herr := handleConn(conn, conf)
+		<-feederDone
+		verifOut(map[string]interface{}{"ev": "conn-end", "err": fmt.Sprint(herr)})
+	}
+	atomic.StoreInt32(&done, 1)
+	wg.Wait()
+	ft, _ := firstTorn.Load().(string)
+	verifOut(map[string]interface{}{"ev": "race-summary", "snapshots": snaps, "torn": torn, "blank": early, "nil": nils,
+		"test_requests": testreqs, "camera_infos": infos, "first_torn": ft})
+	return 0
+}
